@@ -55,6 +55,16 @@ POSITIONS = {
     'for_condition': _in_fn(lambda b, e: [b.for_(None, e, None, b.block([]))]),
     'for_update': _in_fn(lambda b, e: [b.for_(None, None, b.expr_stmt(e), b.block([]))]),
     'for_body': _in_fn(lambda b, e: [b.for_(None, None, None, b.block([b.expr_stmt(e)]))]),
+    # an occurrence that FOLLOWS (or sits inside) statements a detector may treat specially: loops without a condition, empty
+    # blocks, an early return ... -- a detector that stops scanning at one of them loses the later occurrence
+    'for_condition_after_conditionless_for': _in_fn(lambda b, e: [b.for_(None, None, None, b.block([b.break_()])), b.for_(b.var_stmt(u256(b), 'k', b.num(0)), None, b.expr_stmt(b.un('PostIncrement', b.var('k'))), b.block([b.break_()])),
+                                                                  b.for_(None, e, None, b.block([]))]),
+    'for_condition_inside_conditionless_for': _in_fn(lambda b, e: [b.for_(None, None, None, b.block([b.for_(None, e, None, b.block([])), b.break_()]))]),
+    'after_neutral_statements': _in_fn(lambda b, e: [b.for_(None, None, None, b.block([b.break_()])), b.while_(b.var('c'), b.block([b.continue_()])), b.do_while(b.block([]), b.var('c')),
+                                                     b.if_(b.var('c'), b.block([]), b.block([])), b.block([]), b.block([], unchecked=True), b.emit(b.call(b.var('Ev'), [])),
+                                                     b.try_(b.call(b.member(b.this(), 'g'), []), None, [b.catch_simple(None, b.block([]))]),
+                                                     b.var_stmt(u256(b), 'unused'), b.if_(b.var('d'), b.block([b.ret()])), b.expr_stmt(e)]),
+    'after_early_return': _in_fn(lambda b, e: [b.ret(), b.expr_stmt(e)]),
     'call_argument': _in_fn(lambda b, e: [b.expr_stmt(b.call(b.var('g'), [b.var('a'), e]))]),
     'named_argument': _in_fn(lambda b, e: [b.expr_stmt(b.named_call(b.var('g'), [('k', e)]))]),
     'array_index': _in_fn(lambda b, e: [b.expr_stmt(b.index(b.var('arr'), e))]),
@@ -119,6 +129,7 @@ for _k, _v in POSITIONS.items():
 # positions whose scaffolding changes what a detector must say about the slot expression are handled by the oracle's
 # context (unchecked_block, for_condition); all others are neutral.
 QUICK_POSITIONS = ['statement', 'initialiser', 'if_condition', 'for_condition', 'call_argument', 'power_exponent',
+                   'for_condition_after_conditionless_for', 'for_condition_inside_conditionless_for', 'after_neutral_statements',
                    'prefix_increment_operand', 'unchecked_block', 'unchecked_if_body', 'unchecked_initialiser', 'catch_body', 'try_success_block_without_returns',
                    'call_option_value', 'modifier_argument',
                    'state_variable_initialiser', 'free_function_body', 'ternary_branch', 'second_contract']
